@@ -40,7 +40,12 @@ Proof. exact Request.c02_envelope. Qed.
 Theorem c02_sequence : forall l id, run_calls true true (cleared, id) l = asked_all id l.
 Proof. exact RequestSeq.c02_sequence. Qed.
 
+(* clones: an operation invoked on a clone carries exactly the modifiers set on the clone - nothing that was pending on the handle it was cloned from - and what was pending there reaches exactly the original's next operation *)
+Theorem c02_clones : forall (l : list cstep) (pend : mods) (id : Z), run_csteps (handle_of pend, id) l = asked_csteps pend id l.
+Proof. exact RequestSeq.c02_clones. Qed.
+
 Print Assumptions c02_bind. Print Assumptions c02_sasl_external. Print Assumptions c02_search. Print Assumptions c02_add.
 Print Assumptions c02_compare. Print Assumptions c02_delete. Print Assumptions c02_modify. Print Assumptions c02_moddn.
 Print Assumptions c02_extended. Print Assumptions c02_abandon. Print Assumptions c02_unbind. Print Assumptions c02_envelope.
 Print Assumptions c02_sequence.
+Print Assumptions c02_clones.
